@@ -5,9 +5,11 @@ spec/SliceRef.tla   PySlice (declarative)
 spec/SliceUse.tla   one Slice element used repeatedly: two interleaved run generators and the fill_into
                     bookkeeping (operational, mirrored from the code) against Slice.tla's declarative side
 spec/Iterators.tla  Reverse, Chain, CountFrom, RunningChunkBy machines + references, for every way of
-                    constructing / feeding them (opt)
+                    constructing / feeding them (opt); the windows of RunningChunkBy as objects held by the
+                    consumer (ids: live buffer or new object; HeldFrozen, FreshResults)
 spec/SliceFlow.tla  Slice.tla x the protocol surface of the flow object (how iter() works; len / integer index /
-                    negative index / slice / registered Sequence / reversed): "for every finite flow"
+                    negative index / slice / registered Sequence / reversed; the length hint of its iterator;
+                    live flows that grow while the run generator is suspended): "for every finite flow"
 spec/ChainRef.tla, ChainLazy.tla  Chain over iterables that depend on each other (a generator filling a container
                     that is chained after it, raising iterables): when each iterable is asked for its iterator
 spec/Trace_Slice.tla, Trace_Chain.tla  validation of recorded runs beyond the exhaustive bounds
@@ -63,10 +65,14 @@ def make_flow(n, kind):
         return c17flows.flow_class("legacy", ("index",))(range(n))
     if kind == "bare":
         return c17flows.flow_class("iter", ())(range(n))
+    if kind in HINT_FLOW_KINDS:
+        # an iterator whose __length_hint__ is not the number of its values (SliceFlow.tla: hint)
+        return c17flows.flow_class("once", (), kind[1:])(range(n))
     return iter(range(n))
 
 
-MORE_FLOW_KINDS = ("deque", "keys", "useq", "legacy", "bare")
+HINT_FLOW_KINDS = ("hsmall", "hlarge", "hzero", "hnotimpl", "htypeerr")
+MORE_FLOW_KINDS = ("deque", "keys", "useq", "legacy", "bare") + HINT_FLOW_KINDS
 
 
 def arg_forms(a, b, s):
@@ -242,39 +248,82 @@ def replay_use(ctx, rec, lena):
 def replay_flows(ctx, recs, lena):
     """SliceFlow.tla: every (scenario, protocol surface of the flow) on the real Slice.run.
 
-    The flow is realised by a synthetic class with exactly the exported surface and by every builtin type that
-    has it; the expected values are the exported positions mapped through list(flow)."""
-    failures = {}
+    The flow is realised by a synthetic class with exactly the exported surface (capabilities and length hint)
+    and by every builtin type that has it; the expected values are the exported positions mapped through
+    list(flow).  Records with a growth plan (gat, gby) are run over live flows: the consumer appends gby values
+    to the underlying list while the run generator is suspended at its gat-th yield."""
+    import operator
+    failures, gfailures = {}, {}
     surfaces = set()
-    for rec in recs:
+    for idx, rec in enumerate(recs):
         a, b, s, n = _py(rec["a"]), _py(rec["b"]), _py(rec["s"]), rec["n"]
         proto, caps = c17flows.profile_of(rec)
-        sig = "+".join((proto,) + tuple(c for c in c17flows.CAPS if c in caps))
+        hint, gat, gby = rec["hint"], rec["gat"], rec["gby"]
+        sig = c17flows.signature(rec)
         surfaces.add(sig)
+        if gat:
+            ctx.case(["flow-grow", rec["a"], rec["b"], rec["s"], n, sig, gat, gby], nontrivial=True)
+            for name, make in c17flows.live_realisations(proto, caps, n, hint):
+                out = []
+                try:
+                    with deadline(20):
+                        flow, append = make()
+                        for v in itertools.islice(lena.flow.Slice(a, b, s).run(flow), CAP):
+                            out.append(v)
+                            if len(out) == gat:
+                                for k in range(gby):
+                                    append(n + k)
+                except Watchdog:
+                    out = "does not terminate"
+                except Exception as exc:       # noqa
+                    out = "raised " + exc_name(exc)
+                if out != rec["out"]:
+                    who = sig if name == "synthetic" else name
+                    gfailures.setdefault(rec["branch"], []).append(
+                        ((len(caps), name != "synthetic", who, n, gat, gby),
+                         {"args": repr((a, b, s)), "flow": "%s (%s) over %d values, %d appended at the yield number %d"
+                                                           % (who, sig, n, gby, gat),
+                          "expected": rec["out"], "observed": out}))
+            continue
         ctx.case(["flow", rec["a"], rec["b"], rec["s"], n, sig], nontrivial=n > 0)
-        for name, make in c17flows.realisations(proto, caps, n):
+        for name, make in c17flows.realisations(proto, caps, n, hint):
+            if name == "synthetic" and hint != "absent" and n == 4 and a is None and b is None:
+                # binding of the hint surface: the synthesised iterator reports what the model says (HintOf)
+                told = operator.length_hint(iter(make()))
+                if told != rec["hint0"]:
+                    raise core.MachineryError("flow %s over %d values: length_hint %r, model %r" % (sig, n, told, rec["hint0"]))
             listed = list(make())
             expected = [listed[i] for i in rec["out"]]
-            try:
-                with deadline(20):
-                    out = L(lena.flow.Slice(a, b, s).run(make()))
-            except Watchdog:
-                out = "does not terminate"
-            except Exception as exc:       # noqa
-                out = "raised " + exc_name(exc)
-            if out != expected:
-                who = sig if name == "synthetic" else name
-                failures.setdefault(rec["branch"], []).append(
-                    ((len(caps), name != "synthetic", who, n),
-                     {"args": repr((a, b, s)), "flow": "%s (%s) over %d values" % (who, sig, n),
-                      "expected": expected, "observed": out}))
+            runs = [("Slice", lena.flow.Slice)]
+            if hint != "absent" and idx % 7 == 0 and hasattr(lena.flow, "ISlice"):
+                runs.append(("ISlice", lena.flow.ISlice))
+            for elname, elcls in runs:
+                try:
+                    with deadline(20), warnings.catch_warnings():
+                        warnings.simplefilter("ignore")
+                        out = L(elcls(a, b, s).run(make()))
+                except Watchdog:
+                    out = "does not terminate"
+                except Exception as exc:       # noqa
+                    out = "raised " + exc_name(exc)
+                if out != expected:
+                    who = sig if name == "synthetic" else name
+                    failures.setdefault(rec["branch"], []).append(
+                        ((len(caps), name != "synthetic", who, n),
+                         {"args": repr((a, b, s)), "element": elname, "flow": "%s (%s) over %d values" % (who, sig, n),
+                          "expected": expected, "observed": out}))
     # per branch of the algorithm the failure with the smallest protocol surface is reported
     for branch in sorted(failures):
         rank, detail = min(failures[branch], key=lambda f: f[0])
         ctx.violation("Slice.run:flow-protocol:branch=%s:%s" % (branch, rank[2]),
                       dict(detail, failing_cases_of_this_branch=len(failures[branch])))
+    for branch in sorted(gfailures):
+        rank, detail = min(gfailures[branch], key=lambda f: f[0])
+        ctx.violation("Slice.run:growing-flow:branch=%s:%s" % (branch, rank[2]),
+                      dict(detail, failing_cases_of_this_branch=len(gfailures[branch])))
     ctx.extra["flow_protocol_surfaces"] = len(surfaces)
-    return not failures
+    ctx.extra["growing_flow_scenarios"] = sum(1 for r in recs if r["gat"])
+    return not failures and not gfailures
 
 
 def run_chain_dyn(lena, kinds, lens, shared, static_as=list):
@@ -335,6 +384,10 @@ def chunk_container(opt, k):
         return {"container": lambda *args: [-1] + list(args)}, list, list
     if opt == "fn_it":
         return {"container": lambda it: [-1] + list(it), "from_iterable": True}, list, list
+    if opt == "deque_it":
+        return {"container": collections.deque, "from_iterable": True}, collections.deque, list
+    if opt == "bytearray_it":
+        return {"container": bytearray, "from_iterable": True}, bytearray, list
     raise ValueError(opt)
 
 
@@ -353,6 +406,8 @@ def chain_iterables(opt, lens):
         return [iter(x) for x in its], False
     if opt == "3mixed":
         return [tuple(its[0]), (v for v in its[1]), dict.fromkeys(its[2])], False
+    if opt == "3hint":
+        return [c17flows.flow_class("once", (), h)(x) for h, x in zip(("small", "large", "notimpl"), its)], False
     raise ValueError(opt)
 
 
@@ -360,6 +415,7 @@ def replay_iter(ctx, rec, lena):
     kind, p1, p2, n, opt = rec["kind"], rec["p1"], rec["p2"], rec["n"], rec.get("opt", "")
     exp = rec["out"]
     got = {}
+    ok_held = True
     try:
         if kind == "reverse":
             rv = lena.flow.Reverse()
@@ -455,6 +511,31 @@ def replay_iter(ctx, rec, lena):
             got[name] = [norm(w) for w in l]
             if not all(type(w) is ctype for w in l):
                 got[name] = "wrong container type: %r" % (l,)
+            # results HELD by the consumer (Iterators.tla: ids, HeldFrozen, FreshResults): every window is looked
+            # at when it is yielded and again after the run has ended
+            held, snaps = [], []
+            for w in itertools.islice(rc.run(iter(range(n))), CAP):
+                snaps.append(norm(w))
+                held.append(w)
+            got[name + ":at-yield"] = snaps
+            held_now = [norm(w) for w in held]
+            if held_now != [list(w) for w in rec["held"]]:
+                ctx.violation(name + ":held-results", {"scenario": rec, "expected": rec["held"], "when yielded": snaps,
+                                                       "after the run": held_now})
+                ok_held = False
+            else:
+                ok_held = True
+            if rec["mutable"]:
+                if rec["fresh"] and len(set(id(w) for w in held)) != len(held):
+                    ok_held = False
+                    ctx.violation(name + ":results-share-an-object", {"scenario": rec, "windows": len(held),
+                                                                      "objects": len(set(id(w) for w in held))})
+                # the consumer changes the window it was given: the other windows and the rest of the run are its own
+                snaps = []
+                for w in itertools.islice(rc.run(iter(range(n))), CAP):
+                    snaps.append(norm(w))
+                    w.clear()
+                got[name + ":consumer-changes-its-window"] = snaps
             got[name + ":second-run"] = [norm(w) for w in L(rc.run(iter(range(n))))]
             g1, g2 = rc.run(iter(range(n))), rc.run(iter(range(50, 50 + n)))
             first = list(itertools.islice(g1, 1))
@@ -471,7 +552,7 @@ def replay_iter(ctx, rec, lena):
                     got[name + ":odd-values"] = repr(o)
     except Exception as exc:   # noqa
         got[kind] = "raised " + exc_name(exc)
-    ok = True
+    ok = ok_held
     for name, val in got.items():
         if name in ("CountFrom(float)", "CountFrom(bigint)") or name.endswith(":odd-values") or name.endswith("input-list-changed"):
             ok = False
@@ -572,9 +653,34 @@ def run(ctx):
             tlcpar.export("SliceUse", "SliceUse%s_export.cfg" % th, 100),
             # the invariants are checked and the terminal states exported by the same (one worker) TLC run
             mc_export("SliceFlow", "SliceFlow%s.cfg" % th,
-                      ("FStart", "FSkip", "FFill", "FLag", "FDrain", "FEmit", "FCollect", "FISlice"), 10000),
+                      ("FStart", "FSkip", "FFill", "FLag", "FDrain", "FEmit", "FCollect", "FISlice", "FGrow"), 10000),
             mc_export("ChainLazy", "ChainLazy%s.cfg" % th, ("COpen", "CNext"), 1000)]
-    res = run_jobs(ctx, jobs)
+    # sensitivity guards of the flow model (side by side with the main runs): the design "resolve negative
+    # indices from operator.length_hint(flow)" must be refuted for inexact hints and for growing flows, and is
+    # equivalent for exact hints of static flows (which is all that iterators over builtin containers show)
+    from concurrent.futures import ThreadPoolExecutor
+    pool = ThreadPoolExecutor(max_workers=4)
+    guards = [(cfg, want, pool.submit(ctx.mc, "SliceFlow", cfg, workers=1, coverage=True, expect_violation="report"))
+              for cfg, want in (("SliceFlow_guard_hint.cfg", "FlowIndependent"), ("SliceFlow_guard_grow.cfg", "FlowIndependent"),
+                                ("SliceFlow_guard_exact.cfg", None))]
+    # a RunningChunkBy that hands out its live buffer when the container is the buffer's type: TLC refutes HeldFrozen
+    share = pool.submit(ctx.mc, "Iterators", "Iterators_guard_share.cfg", workers=1, expect_violation="report")
+    try:
+        res = run_jobs(ctx, jobs)
+        for cfg, want, fut in guards:
+            g = fut.result()
+            if g.violated != want or g.coverage.get("FHintStart", 0) == 0:
+                raise core.MachineryError("the flow model is insensitive: %s refuted %s (expected %s), FHintStart taken %d times"
+                                          % (cfg, g.violated, want, g.coverage.get("FHintStart", 0)))
+        if share.result().violated != "HeldFrozen":
+            raise core.MachineryError("the iterator model is insensitive: a shared running buffer refuted %s"
+                                      % share.result().violated)
+    finally:
+        pool.shutdown(wait=True)
+    ctx.extra["sensitivity"] = ["Iterators with ShareBuffer (the live running buffer handed out as a window): TLC refutes HeldFrozen",
+                                "SliceFlow with UseHint (negative indices resolved from the length hint): TLC refutes "
+                                "FlowIndependent for too small / too large hints and for exact hints of a growing flow; "
+                                "no difference for exact hints of static flows"]
     recs, recs2, recs3, recs4, recs5 = res[3], res[4], res[5], res[6], res[7]
     # ---- spec -> code: every terminal state of the bounded model replayed on the real elements
     def guarded(what, fn, *args):
@@ -699,7 +805,7 @@ def run(ctx):
         rule="S2C: every (start, stop, step, n) of the bounded Slice model in every argument form (flows as "
              "iterator / list / tuple / range / generator, odd objects, the ISlice alias on every 7th case), every "
              "behaviour of SliceUse (two interleaved runs and fill_into on one element), every (scenario, protocol "
-             "surface of the flow object) of SliceFlow, every Chain of dependent iterables of ChainLazy (each with every "
+             "surface of the flow object incl. its length hint, and growth plan of a live flow) of SliceFlow, every Chain of dependent iterables of ChainLazy (each with every "
              "kind of shared container) and every Iterators "
              "scenario (all construction variants; CountFrom also shifted to and beyond the machine word), non-trivial = "
              "flow not empty; C2S: seeded random Slice "
